@@ -244,6 +244,58 @@ func checkC09(w *World, c *Check, tier string) {
 		}
 	}
 
+	// ---- nilptr: a nil pointer of ANY pointer type that can sit in an Item (not only the vocabulary structs of C20:
+	// also *IRI, *IRIs, *ItemCollection) is compared without a fault, on either side ----
+	{
+		itemT := w.itemIface()
+		var nilKinds []struct {
+			label string
+			av    AV
+		}
+		for _, name := range w.Types.Scope().Names() {
+			tn, ok := w.Types.Scope().Lookup(name).(*types.TypeName)
+			if !ok || tn.IsAlias() {
+				continue
+			}
+			if _, isIface := tn.Type().Underlying().(*types.Interface); isIface {
+				continue
+			}
+			pt := types.NewPointer(tn.Type())
+			if itemT != nil && types.Implements(pt, itemT) {
+				nilKinds = append(nilKinds, struct {
+					label string
+					av    AV
+				}{"typed-nil(*" + name + ")", avIface(pt, avNilPtr(pt))})
+			}
+		}
+		objPtr := types.NewPointer(w.Named("Object"))
+		others := []struct {
+			label string
+			av    AV
+		}{{"nil", AV{K: kIface, Nil: nilYes}}, {"object", avIface(objPtr, avNonNilPtr(objPtr))}}
+		for _, nk := range nilKinds {
+			bad := ""
+			for _, o := range others {
+				for _, order := range [][2]AV{{nk.av, o.av}, {o.av, nk.av}} {
+					ip := newInterp(w)
+					ip.stopAt = func(f *ssa.Function) bool { return f.Name() == "Equals" && f.Signature.Recv() != nil }
+					ip.Call(itemsEqual, []AV{order[0], order[1]}, nil, Store{}, nil)
+					if len(ip.faults) > 0 && bad == "" {
+						bad = fmt.Sprintf("ItemsEqual with %s against %s can fault: %s", nk.label, o.label, strings.Join(ip.faultStrings(), "; "))
+					}
+					if ip.aborted != "" && bad == "" {
+						bad = "undecided: " + ip.aborted
+					}
+				}
+			}
+			if bad != "" {
+				c.bad("C09.nilptr", nk.label, w.FuncPos(itemsEqual), bad)
+			} else {
+				c.ok("C09.nilptr", nk.label, w.FuncPos(itemsEqual), "no fault against nil and against an object, in both orders")
+			}
+		}
+	}
+
 	// ---- nopanic: comparing two interface values with == panics at run time when their dynamic type is not
 	// comparable; item lists (ItemCollection, IRIs) and the value forms of the vocabulary structs (which hold slices)
 	// are such types, so no two item-like interface values may be compared with == / != anywhere in the package ----
